@@ -1,6 +1,6 @@
 (* Executor ops for packet/io.go (C16), packet/packetwriter.go (C18), packet/accumulator.go (C17).
    The same op names run the real code in goexec/io.go. *)
-From Gots Require Import Base.Prelude Exec.ExecBase Model.IO Model.PacketWriter Model.Accumulator.
+From Gots Require Import Base.Prelude Exec.ExecBase Model.IO Model.PacketWriter Model.Accumulator Model.Bufio.
 Open Scope string_scope.
 
 (* io.sync <data> <terminal error code> <bufio size> <underlying reader mode>
@@ -67,6 +67,36 @@ Definition readfrom_op (a : list val) : val :=
   | _ => vbad
   end.
 
+(* io.syncb <script> <bufio size>: Sync over the MODEL of bufio.Reader (Model/Bufio.v) over the scripted
+   reader; goexec runs the real packet.Sync over the real bufio.NewReaderSize over the same script.
+   reply: [0 [off avail]] | [1 e [off avail]], avail = what r.Peek(16) hands out afterwards *)
+Definition syncb_op (a : list val) : val :=
+  match a with
+  | [VL sc; VI size] =>
+    match script_of sc with
+    | None => vbad
+    | Some s =>
+      match Bufio.sync_raw (Z.to_nat size) s with
+      | Ok (off, err, b') =>
+        match Bufio.peek_avail 16 b' with
+        | Ok av =>
+          let obs := VL [vn off; VB av] in
+          match err with
+          | None => VL [VI 0%Z; obs]
+          | Some e => VL [VI 1%Z; vn e; obs]
+          end
+        | Err e => VL [VI 1%Z; vn e]
+        | Panic => VL [VI 2%Z]
+        | Diverge => VL [VI 3%Z]
+        end
+      | Err e => VL [VI 1%Z; vn e]
+      | Panic => VL [VI 2%Z]
+      | Diverge => VL [VI 3%Z]
+      end
+    end
+  | _ => vbad
+  end.
+
 (* ---- C17 ----
    predicate oracles: kind 0 done when len >= k; 1 never; 2 always; 3 fails (error 62) when len >= k;
    4 (true, error 62) when len >= k (the error has priority); 5 done when the last byte equals k mod 256 *)
@@ -119,6 +149,7 @@ Definition acc_op (a : list val) : val :=
 
 Definition ops : list op := [
   ("io.sync", sync_op);
+  ("io.syncb", syncb_op);
   ("pw.write", write_op);
   ("pw.readfrom", readfrom_op);
   ("acc.run", acc_op)
